@@ -2,7 +2,7 @@
   C01 — Symbolic tree integrity. Property theorems only (model: PgModel/Sym*.lean,
   lemmas: PgProofs/Sym*.lean).
 -/
-import PgProofs.SymEval
+import PgProofs.SymStepInv
 namespace Pg.Sym
 
 example : (Forest.empty).wf = true := by decide
@@ -14,10 +14,6 @@ def ValueFree : Op → Bool
   | .lReverse _ | .lSort _ _ _ | .lClear _ | .dClear _ | .dPopItem _ | .delItem _ _ | .lPop _ _
   | .lRemove _ _ | .dPop _ _ | .lDelSlice _ _ _ _ | .setSeal _ _ => true
   | _ => false
-
-def C01_step_Full : Prop :=
-  ∀ (f : Forest) (n : Bool) (op : Op), f.wf = true → Admissible Cfg.patched f n op = true →
-    (stepA Cfg.patched f n op).forest.wf = true
 
 /-- **C01, step theorem**: on the patched tree *every* operation of the surface — for every
 forest, target, key / index / slice / rank list, offered value (plain nested values, existing
@@ -351,6 +347,35 @@ theorem C01_step (f : Forest) (n : Bool) (op : Op) (hf : f.ok = true) :
         · exact hf
         · exact clearAndNotify_ok f n t m its hf hits
 
+/-- **C01, full step theorem**: on the patched tree every operation maps a well-formed forest
+(beliefs agree with positions, node ids distinct and below the counter, list keys are the
+positions, dict / object keys distinct, no node object in two places) to a well-formed forest.
+Hypotheses: the call is a well-formed *encoding* (`wellKeyed`: a dict literal has distinct keys —
+Python cannot write anything else), and the model did not have to put one node object in two
+places during the call (the decidable mark `aliased`, reported by the driver after every step and
+never set in any run against the real code; with F79 unpatched `l.insert(0, l[0])` sets it, see
+`C01_counterexample_F79`). No admissibility hypothesis: a diverging call (F30) has no after-state
+(`stepA` leaves the forest alone). -/
+theorem C01_step_Full (f : Forest) (n : Bool) (op : Op) (hf : f.wf = true) (hk : wellKeyed op = true)
+    (hal : (stepA Cfg.patched f n op).forest.aliased = false) :
+    (stepA Cfg.patched f n op).forest.wf = true := by
+  rw [wf_iff] at hf ⊢
+  exact ⟨C01_step f n op hf.1, stepA_inv _ f n op hf.2.1 hk hal, hal, stepA_pool _ f n op hf.2.2.2⟩
+
+/-- the representation half (ids distinct and bounded, key shapes) needs none of the fixes: it is
+preserved by every operation on *every* configuration of the tree — the defects F02 / F03 / F78 /
+F17 only ever damage beliefs and flags, never the identity of nodes or the keys of payloads. -/
+theorem C01_step_rep (cfg : Cfg) (f : Forest) (n : Bool) (op : Op) (hf : f.repOk = true) (hk : wellKeyed op = true)
+    (hal : (stepA cfg f n op).forest.aliased = false) : (stepA cfg f n op).forest.repOk = true := by
+  rw [repOk_iff] at hf ⊢
+  exact ⟨stepA_inv cfg f n op hf.1 hk hal, stepA_pool cfg f n op hf.2⟩
+
+/-- a dict literal with a repeated key is not a call anybody can write; the model would store
+both items (why `wellKeyed` is a hypothesis of `C01_step_Full`). -/
+theorem C01_wellKeyed_needed :
+    (stepA Cfg.patched Forest.empty true
+      (.new (.node .dict false true false [(.s 0, .atom .none), (.s 0, .atom .none)]))).forest.wf = false := by decide
+
 /-- **Removed / replaced nodes are detached**: if no tree held by the program claims a parent, the
 same holds after every operation of `ValueFree` — in particular the values that `del`, `pop`,
 `remove`, `clear`, `popitem` and slice deletion take out of a container become roots of the
@@ -530,11 +555,6 @@ theorem C01_removed_detached (f : Forest) (n : Bool) (op : Op) (hf : f.rootsFree
 
 /-! ## Histories -/
 
-/-- a history: calls with the state of `notify_on_change` they run under. -/
-def runHist (cfg : Cfg) (f : Forest) : List (Bool × Op) → Forest
-  | [] => f
-  | (n, op) :: rest => runHist cfg (stepA cfg f n op).forest rest
-
 theorem C01_history_final (hist : List (Bool × Op)) : ∀ (f : Forest), f.ok = true →
     (runHist Cfg.patched f hist).ok = true := by
   induction hist with
@@ -553,6 +573,33 @@ theorem C01_history (f : Forest) (hist : List (Bool × Op)) (hf : f.ok = true) (
 
 theorem C01_reachable (hist : List (Bool × Op)) : (runHist Cfg.patched Forest.empty hist).ok = true :=
   C01_history_final hist Forest.empty (by decide)
+
+theorem C01_history_Full_final (hist : List (Bool × Op)) : ∀ (f : Forest), f.wf = true →
+    (∀ s ∈ hist, wellKeyed s.2 = true) → (runHist Cfg.patched f hist).aliased = false →
+    (runHist Cfg.patched f hist).wf = true := by
+  induction hist with
+  | nil => intro f hf _ _; exact hf
+  | cons s rest ih =>
+    intro f hf hk hal
+    obtain ⟨n, op⟩ := s
+    simp only [runHist] at hal ⊢
+    have hal1 := unal_of_rise (runHist_rise Cfg.patched rest _) hal
+    exact ih _ (C01_step_Full f n op hf (hk (n, op) (by simp)) hal1) (fun s hs => hk s (by simp [hs])) hal
+
+/-- **C01 over histories, full invariant**: if the state at the end of a history does not carry
+the mark `aliased` (the mark is never cleared), then *every* state on the way — every prefix —
+is well-formed, from every well-formed start. -/
+theorem C01_history_Full (f : Forest) (hist : List (Bool × Op)) (hf : f.wf = true)
+    (hk : ∀ s ∈ hist, wellKeyed s.2 = true) (hal : (runHist Cfg.patched f hist).aliased = false) (k : Nat) :
+    (runHist Cfg.patched f (hist.take k)).wf = true :=
+  C01_history_Full_final (hist.take k) f hf (fun s hs => hk s (List.mem_of_mem_take hs))
+    (runHist_prefix_unal Cfg.patched f hist k hal)
+
+/-- … in particular everything a program can build from nothing. -/
+theorem C01_reachable_Full (hist : List (Bool × Op)) (hk : ∀ s ∈ hist, wellKeyed s.2 = true)
+    (hal : (runHist Cfg.patched Forest.empty hist).aliased = false) :
+    (runHist Cfg.patched Forest.empty hist).wf = true :=
+  C01_history_Full_final hist Forest.empty (by decide) hk hal
 
 /-- the empty forest is well-formed (base case). -/
 theorem C01_empty : Forest.empty.wf = true := by decide
